@@ -12,7 +12,10 @@ func init() {
 
 // genC03: accepted journals with price histories (sparse or dense, direct, inverse, chained),
 // positions that pass through zero, liabilities; valued reports (cumulative columns), plus
-// journals in which some needed price is missing (must fail).
+// journals in which some needed price is missing (must fail).  A third of the cases (index
+// 2 mod 3) aggregate rows: one or two -m level[,regex] rules and/or --remap regex over the
+// journal's account names (C03_windowed_mapped); the draws come last, so the other cases are
+// those of the generator without mappings.
 func genC03(out *caseWriter, seed uint64, n int, args []string) error {
 	var items []caseIn
 	for i := 0; i < n; i++ {
@@ -39,6 +42,27 @@ func genC03(out *caseWriter, seed uint64, n int, args []string) error {
 		cfg.Close = r.chance(50)
 		if r.chance(50) {
 			cfg.From = dateStr(o.startDate.AddDate(0, 0, r.rangeInt(1, o.days/2+1)))
+		}
+		if i%3 == 2 {
+			accs := journalAccounts(j)
+			if len(accs) > 0 {
+				if r.chance(75) {
+					for k, n := 0, 1+r.intn(2); k < n; k++ {
+						lv := pick(r, []int{1, 1, 2, 2, 3, 0})
+						m := fmt.Sprintf("%d", lv)
+						if lv > 0 && r.chance(20) {
+							m += ":1" // keep the last segment
+						}
+						if lv == 0 || r.chance(60) { // level 0 hides: only behind a regex
+							m += "," + rxFor(r, accs)
+						}
+						cfg.Map = append(cfg.Map, m)
+					}
+				}
+				if len(cfg.Map) == 0 || r.chance(35) {
+					cfg.Remap = []string{rxFor(r, accs)}
+				}
+			}
 		}
 		_ = time.Now
 		items = append(items, caseIn{fmt.Sprintf("C03-%d-%d", seed, i), "C03.bal", cfg.Enc() + " | " + j.Enc()})
